@@ -80,6 +80,39 @@ fn all_on(reg: &PortableRegistry) -> SettingsSpec {
 /// as a named field, a tuple-struct field, an enum variant field, and reached through a type
 /// parameter (`struct S<T> { #[codec(compact)] x: T }` instantiated with X: the inner type of the
 /// Compact entry resolves to the parameter `_0`, so the field prints `_0` and nothing panics).
+/// Out-of-class inputs (C10's "explicit panic / error outcomes outside the class"): identifiers
+/// that `syn` rejects, keywords, unknown single-segment (prelude) paths such as scale-info's
+/// `Duration`, a parameterless type called `Cow`, 256-bit integers.  Only the model's prediction of
+/// the outcome (error kind / panic) is compared; `hyp_wf` is false on all of them.
+pub fn outside_idents_and_prelude() -> Vec<serde_json::Value> {
+    use serde_json::json;
+    let u8t = |id: u32| json!({"id": id, "type": {"path": [], "params": [], "def": {"primitive": "u8"}, "docs": []}});
+    let st = |id: u32, path: Vec<&str>, fname: Option<&str>, fty: u32| {
+        let mut f = json!({"type": fty, "docs": []});
+        if let Some(n) = fname { f["name"] = json!(n); }
+        json!({"id": id, "type": {"path": path, "params": [], "def": {"composite": {"fields": [f]}}, "docs": []}})
+    };
+    let mut v = vec![];
+    for bad in ["1abc", "type", "a-b", "", "_", "fn", "Self"] {
+        // bad field name, bad type name, bad namespace segment, bad variant name
+        v.push(json!({"types": [st(0, vec!["a", "S"], Some(bad), 1), u8t(1)]}));
+        v.push(json!({"types": [st(0, vec!["a", bad], Some("x"), 1), u8t(1)]}));
+        v.push(json!({"types": [st(0, vec![bad, "S"], Some("x"), 1), u8t(1)]}));
+        v.push(json!({"types": [{"id": 0, "type": {"path": ["a", "E"], "params": [], "docs": [],
+                       "def": {"variant": {"variants": [{"name": bad, "index": 0, "fields": [], "docs": []}]}}}}, u8t(1)]}));
+    }
+    // unknown prelude names, used as a field type and at top level
+    for name in ["Duration", "PhantomData", "Foo", "Cow"] {
+        v.push(json!({"types": [st(0, vec!["a", "S"], Some("d"), 1), st(1, vec![name], Some("secs"), 2), u8t(2)]}));
+    }
+    // 256-bit integers
+    for p in ["u256", "i256"] {
+        v.push(json!({"types": [st(0, vec!["a", "S"], Some("big"), 1),
+                                {"id": 1, "type": {"path": [], "params": [], "def": {"primitive": p}, "docs": []}}]}));
+    }
+    v
+}
+
 pub fn outside_compact_field() -> Vec<serde_json::Value> {
     use serde_json::json;
     let prim = |id: u32| json!({"id": id, "type": {"path": [], "params": [], "def": {"primitive": "u8"}, "docs": []}});
@@ -234,6 +267,10 @@ pub fn cases(prop: &str, tier: &str, ctx: &mut Ctx, rng: &mut Rng) {
             // type is a tuple / an array makes `to_syn_type` panic (`parse_quote!( #inner )` into a
             // `syn::TypePath`).  The model must agree (corr_gen / corr_upcasts) and `hyp_wf` must be false
             // on the panicking ones (otherwise `prop_wf_total` fails).
+            for rj in outside_idents_and_prelude() {
+                let reg = reggen::to_registry(&rj);
+                ctx.push_reg("outside:idents-prelude", &reg, Some(&rj), &SettingsSpec::default());
+            }
             for rj in outside_compact_field() {
                 let reg = reggen::to_registry(&rj);
                 ctx.push_reg("outside:compact-field", &reg, Some(&rj), &base_spec(&reg));
